@@ -146,6 +146,14 @@ class AsyncProxy(BaseProxy):
             self._meta = copy.deepcopy(simrec["meta"])
         if simrec.get("set_events"):
             self._meta["set_events"] = True  # the simulator declares that it MAY call set_event (it need not ever do so)
+        if simrec.get("infer_triggers") and typ == "hybrid" and not simrec.get("meta"):
+            # the trigger inputs are not DECLARED at all: any_inputs with a non-trigger list that covers the declared inputs and no
+            # trigger key - every other attribute name (ti, ti2) is then a trigger input by inference
+            m = self._meta["models"]["M"]
+            m["attrs"] = [a for a in m["attrs"] if not S.is_trig(a)]
+            m["non-trigger"] = list(m["attrs"])  # (covers every declared attribute; outputs may also serve as input names)
+            m.pop("trigger", None)
+            m["any_inputs"] = True
         if simrec.get("children") == "swapped_parent" and typ == "hybrid":
             # the entities that take part in the scenario are CHILDREN (non-public model K with the usual attributes and roles) of
             # entities of a public model M that has the SAME attribute names with the OPPOSITE roles (i / i2 trigger, ti non-trigger,
@@ -344,9 +352,18 @@ def build_world(ctx: Ctx, loop, world_kw=None, connect_order=None):
         import contextlib as _cl
         import io as _io
 
-        with _cl.redirect_stdout(_io.StringIO()):  # (the greeting; skip_greetings is left at its default)
-            world = mosaik.World({}, None, kw.get("time_resolution", 1.0), kw.get("debug", False), kw["cache"], kw["max_loop_iterations"],
-                                 asyncio_loop=kw["asyncio_loop"])
+        import mosaik.scenario as _ms
+
+        _saved = getattr(_ms, "print_greetings", None)
+        if _saved is not None:
+            _ms.print_greetings = lambda: None  # (skip_greetings is left at its default; only the banner is suppressed)
+        try:
+            with _cl.redirect_stdout(_io.StringIO()):
+                world = mosaik.World({}, None, kw.get("time_resolution", 1.0), kw.get("debug", False), kw["cache"], kw["max_loop_iterations"],
+                                     asyncio_loop=kw["asyncio_loop"])
+        finally:
+            if _saved is not None:
+                _ms.print_greetings = _saved
     else:
         world = mosaik.World({}, **kw)
     ctx.world = world
@@ -464,7 +481,16 @@ def build_world(ctx: Ctx, loop, world_kw=None, connect_order=None):
                 pass
 
     refused("before")
+    ncall = 0
     for _, group in calls:
+        if scn.get("precheck") is not None and ncall == scn["precheck"]:
+            # the script validates the data-flow itself (public World.ensure_no_dataflow_cycles) before it makes further connections;
+            # whatever that call says about the graph so far, run() judges the complete graph
+            try:
+                world.ensure_no_dataflow_cycles()
+            except Exception:  # noqa: BLE001
+                pass
+        ncall += 1
         c = group[0]
         ckw = {}
         if c["shift"]:
